@@ -137,7 +137,8 @@ func (f *Fragment) GetFullSamples(trex *TrexBox) ([]FullSample, error) {
 	}
 	moofStartPos := moof.StartPos
 	var samples []FullSample
-	for _, trun := range traf.Truns {
+	var nextOffsetInMdat uint64 // end of the data of the preceding trun
+	for i, trun := range traf.Truns {
 		totalDur := trun.AddSampleDefaultValues(tfhd, trex)
 		// The default is moofStartPos according to Section 8.8.7.1
 		baseOffset := moofStartPos
@@ -151,7 +152,10 @@ func (f *Fragment) GetFullSamples(trex *TrexBox) ([]FullSample, error) {
 		}
 		mdatDataLength := uint64(len(mdat.Data)) // len should be fine for 64-bit
 		var offsetInMdat uint64
-		if baseOffset > 0 {
+		if i > 0 && !trun.HasDataOffset() {
+			// Without data offset, the data follows the data of the preceding run (Section 8.8.8.1)
+			offsetInMdat = nextOffsetInMdat
+		} else if baseOffset > 0 {
 			offsetInMdat = baseOffset - mdat.PayloadAbsoluteOffset()
 			if offsetInMdat > mdatDataLength {
 				return nil, fmt.Errorf("offset in mdata beyond size")
@@ -161,6 +165,7 @@ func (f *Fragment) GetFullSamples(trex *TrexBox) ([]FullSample, error) {
 		}
 		samples = append(samples, trun.GetFullSamples(uint32(offsetInMdat), baseTime, mdat)...)
 		baseTime += totalDur // Next trun start after this
+		nextOffsetInMdat = offsetInMdat + trun.SizeOfData()
 	}
 
 	return samples, nil
